@@ -11,11 +11,14 @@ import (
 	"context"
 	"fmt"
 	"net"
+	"os"
+	"sync"
 	"sort"
 	"strings"
 	"testing"
 	"time"
 
+	"github.com/libp2p/go-libp2p/core/control"
 	"github.com/libp2p/go-libp2p/core/event"
 	"github.com/libp2p/go-libp2p/core/network"
 	"github.com/libp2p/go-libp2p/core/peer"
@@ -29,6 +32,20 @@ import (
 	"verifsim/simrt"
 	"verifsim/simsync"
 )
+
+// upgradeGater allows everything and reports connections that reached InterceptUpgraded.
+type upgradeGater struct{ f func(network.Conn) }
+
+func (g *upgradeGater) InterceptPeerDial(peer.ID) bool               { return true }
+func (g *upgradeGater) InterceptAddrDial(peer.ID, ma.Multiaddr) bool { return true }
+func (g *upgradeGater) InterceptAccept(network.ConnMultiaddrs) bool  { return true }
+func (g *upgradeGater) InterceptSecured(network.Direction, peer.ID, network.ConnMultiaddrs) bool {
+	return true
+}
+func (g *upgradeGater) InterceptUpgraded(c network.Conn) (bool, control.DisconnectReason) {
+	g.f(c)
+	return true, 0
+}
 
 func TestSim(t *testing.T) { common.Main(t, common.Harness{Property: "C06", Run: run}) }
 
@@ -159,7 +176,16 @@ func run(t *testing.T, tape *simrt.Tape) *common.Outcome {
 			actors[a] = append(actors[a], step{kind: g.Weighted(5, 5, 3, 3, 2, 1, 2, 4, 2), peer: g.Int(nPeers), sleep: sleeps[g.Int(len(sleeps))]})
 		}
 	}
-	o.Logf("peers=%d notifiees=%d slowSub=%v subBuf=%d stall=%d", nPeers, nNotif, slowSub, subBuf, stall)
+	// close-race stratum: Swarm.Close is issued by a task of its own after a drawn number of scheduling points,
+	// while the actors are dialling — shutdown lands inside in-flight admissions far more often than with the
+	// rare "Swarm.Close" actor step
+	closeRace := g.Chance(1, 3)
+	closeTrigger := g.Int(2) // 0: after closeAfter scheduling points; 1: when an outbound connection of S passes InterceptUpgraded (the last public point before the swarm admits it)
+	closeAfter := g.Int(40)
+	if closeTrigger == 1 {
+		closeAfter = g.Int(6)
+	}
+	o.Logf("peers=%d notifiees=%d slowSub=%v subBuf=%d stall=%d closeRace=%v/%d", nPeers, nNotif, slowSub, subBuf, stall, closeRace, closeAfter)
 	for i, n := range notifs {
 		o.Logf(" notifiee%d onConnected=%d onDisconnected=%d", i, n.onConn, n.onDisc)
 	}
@@ -179,7 +205,7 @@ func run(t *testing.T, tape *simrt.Tape) *common.Outcome {
 	sClosed := false
 	finished := false
 
-	res := simrt.Run(t, simrt.Config{MaxSteps: 300000, StallPermille: stall, IdleLimit: time.Hour, TraceCap: 3000}, tape.S, func() {
+	res := simrt.Run(t, simrt.Config{MaxSteps: 300000, StallPermille: stall, IdleLimit: time.Hour, TraceCap: 3000, PausePermille: 450, PCTPermille: 150}, tape.S, func() {
 		n := simnet.New(tape.S, simnet.Config{Mode: simnet.Whole})
 		bus := eventbus.NewBus()
 		// connections whose remote address lies in 10.0.2.0/24 are LIMITED for S (what the circuit transport
@@ -188,7 +214,14 @@ func run(t *testing.T, tape *simrt.Tape) *common.Outcome {
 			ta, ok := a.(*net.TCPAddr)
 			return ok && ta.IP.To4() != nil && ta.IP.To4()[2] == 2
 		}
-		S, err := simhost.New(n, simhost.Opts{Key: simhost.DetKey(1), IP: "10.0.0.1", Port: 4001, Security: "insecure", Bus: bus, Limited: isLimited})
+		upgraded := make(chan struct{})
+		var upgradedOnce sync.Once
+		gater := &upgradeGater{f: func(c network.Conn) {
+			if c.Stat().Direction == network.DirOutbound {
+				upgradedOnce.Do(func() { close(upgraded) })
+			}
+		}}
+		S, err := simhost.New(n, simhost.Opts{Key: simhost.DetKey(1), IP: "10.0.0.1", Port: 4001, Security: "insecure", Bus: bus, Limited: isLimited, Gater: gater})
 		if err != nil {
 			o.Trouble = err.Error()
 			return
@@ -281,11 +314,30 @@ func run(t *testing.T, tape *simrt.Tape) *common.Outcome {
 			}
 		})
 
-		var wg simsync.WaitGroup
+		var wg, wgActors simsync.WaitGroup
+		actorsDone := make(chan struct{})
+		if closeRace {
+			wg.Add(1)
+			simrt.GoNamed("closer", func() {
+				defer wg.Done()
+				if closeTrigger == 1 {
+					rc, dc := simrt.RecvCase((<-chan struct{})(upgraded)), simrt.RecvCase((<-chan struct{})(actorsDone))
+					if simrt.Select("closer.trigger", false, rc, dc) == 1 {
+						return // no outbound connection ever got that far
+					}
+				}
+				for i := 0; i < closeAfter; i++ {
+					simrt.Yield("closer.wait")
+				}
+				closeS()
+			})
+		}
 		for a, steps := range actors {
 			wg.Add(1)
+			wgActors.Add(1)
 			simrt.GoNamed(fmt.Sprintf("actor%d", a), func() {
 				defer wg.Done()
+				defer wgActors.Done()
 				for _, st := range steps {
 					p := peers[st.peer]
 					ctx, cancel := context.WithTimeout(context.Background(), 5*time.Second)
@@ -338,6 +390,8 @@ func run(t *testing.T, tape *simrt.Tape) *common.Outcome {
 				}
 			})
 		}
+		wgActors.Wait()
+		close(actorsDone)
 		wg.Wait()
 		// quiescent reading of the truth: settle, let the subscriber catch up, read, and accept the
 		// reading only if nothing at all happened while it was taken (a stalled process can lose
@@ -535,6 +589,15 @@ func run(t *testing.T, tape *simrt.Tape) *common.Outcome {
 	}
 	if !q.taken {
 		o.Probe("swarm-closed-by-actor")
+	}
+	if res.Paused != "" {
+		o.Probe("pause-rule-fired")
+		if os.Getenv("C06_DEBUG") != "" {
+			o.Probe("paused@" + res.Paused)
+		}
+	}
+	if res.PCT {
+		o.Probe("priority-scheduled")
 	}
 	for _, e := range events {
 		if e.state == network.NotConnected {
